@@ -6,6 +6,7 @@
 # vim: set ts=4 sts=4 et tw=78 sw=4 si:
 import base64
 import binascii
+import operator
 import sys
 from abc import ABCMeta
 
@@ -76,7 +77,7 @@ class Qty(object):
         )
 
     def __index__(self):
-        return self.value.__index__()
+        return operator.index(self.value)
 
     def __oct__(self):  # pragma: no cover
         return oct(self.value)
